@@ -131,6 +131,23 @@ def _w_json3(d):
     return p
 
 
+def _w_csv_text_forms(d):
+    """numbers whose text differs from the text of the parsed value (leading zeros, trailing zeros): a column read as str / object is
+    the CAST of what a plain read gives, not the raw field text"""
+    p = os.path.join(d, "forms.csv")
+    with open(p, "w") as f:
+        f.write("a,b,c,d\n007,x,1.50,p\n010,,,\n100,z,2.0,\n")
+    return p
+
+
+def _w_csv_dup_header(d):
+    """a header that repeats a name: restricting the read to that name gives what the full read gives for it"""
+    p = os.path.join(d, "dup.csv")
+    with open(p, "w") as f:
+        f.write("a,b,c,b,d\n1,x,0.5,X,p\n2,,,Y,\n3,z,2.0,Z,\n")
+    return p
+
+
 def _w_csv_header_only(d):
     p = os.path.join(d, "h.csv")
     with open(p, "w") as f:
@@ -144,7 +161,7 @@ def restriction_driver(name, cls, meth, write, colkw, tykw, tymaps, from_string=
     def _d(run):
         run.bound = ("one 3-row file with columns a (int), b (str incl. ''), c (float incl. missing), d (str incl. null / absent); every ordering of every "
                      f"subset of 1-3 columns x {len(tymaps)} type maps (incl. maps naming unselected columns)"
-                     + (f"; plus {len(extra_files)} more file(s): header-only CSV / Parquet written by pandas with a materialised index" if extra_files else ""))
+                     + (f"; plus {len(extra_files)} more file(s): header-only CSV, CSV with a repeated header name, CSV with 007 / 1.50 style numbers, Parquet written by pandas with a materialised index" if extra_files else ""))
         d = tempfile.mkdtemp(prefix="vfrd")
         try:
             paths = [write(d)] + [w(d) for w in extra_files]
@@ -230,13 +247,14 @@ def _w_parquet_pandas(d):
     t[t.a != 2].to_parquet(p)
     return p
 
-restriction_driver("dataiter/data_frame.py::DataFrame.read_csv[restriction]", DataFrame, "read_csv", _w_csv3, "columns", "dtypes", _DF_TYMAPS)
+restriction_driver("dataiter/data_frame.py::DataFrame.read_csv[restriction]", DataFrame, "read_csv", _w_csv3, "columns", "dtypes",
+                   _DF_TYMAPS + [{"a": "object"}, {"c": "str"}], extra_files=(_w_csv_text_forms,))
 restriction_driver("dataiter/data_frame.py::DataFrame.read_parquet[restriction]", DataFrame, "read_parquet", _w_parquet3, "columns", "dtypes", _DF_TYMAPS,
                    extra_files=(_w_parquet_pandas,))
 restriction_driver("dataiter/data_frame.py::DataFrame.read_json[restriction]", DataFrame, "read_json", _w_json3, "columns", "dtypes", _DF_TYMAPS)
 restriction_driver("dataiter/data_frame.py::DataFrame.from_json[restriction]", DataFrame, "from_json", _w_json3, "columns", "dtypes", _DF_TYMAPS, from_string=True)
 restriction_driver("dataiter/list_of_dicts.py::ListOfDicts.read_csv[restriction]", ListOfDicts, "read_csv", _w_csv3, "keys", "types", _LOD_TYMAPS,
-                   extra_files=(_w_csv_header_only,))
+                   extra_files=(_w_csv_header_only, _w_csv_dup_header))
 restriction_driver("dataiter/list_of_dicts.py::ListOfDicts.read_json[restriction]", ListOfDicts, "read_json", _w_json3, "keys", "types", _LOD_TYMAPS)
 restriction_driver("dataiter/list_of_dicts.py::ListOfDicts.from_json[restriction]", ListOfDicts, "from_json", _w_json3, "keys", "types", _LOD_TYMAPS, from_string=True)
 
@@ -285,6 +303,9 @@ def _c06_frames():
                                                                 d=Vector(["2020-01-02", "NaT", "2020-01-01"], "datetime64[D]"))
     yield "object + int", lambda: DataFrame(g=Vector([None, 1, "x"], object), x=[3, 1, 2])
     yield "no rows", lambda: DataFrame(g=Vector([], int), x=Vector([], float))
+    # strings longer than the display width and with a newline (what printing truncates), float32 and timedelta columns
+    yield "long strings + float32 + timedelta", lambda: DataFrame(g=["y" * 60, "a\nb", ""], x=Vector(np.array([1.5, np.nan, 0.5], np.float32)),
+                                                                 t=Vector(np.array([1, "NaT", 2], "timedelta64[D]")))
 
 
 _DF_CALLS = {
@@ -317,6 +338,8 @@ _DF_CALLS = {
     "rbind (other columns)": lambda d, o: d.rbind(o.rename(g="g2")), "update (keywords)": lambda d, o: d.update(x=o.x, z=o.g),
     "modify (column object)": lambda d, o: d.modify(z=o.x, x=o.g), "select (one)": lambda d, o: d.select("g"),
     "rename (two)": lambda d, o: d.rename(h="g", y="x"), "drop_na (all columns)": lambda d, o: d.drop_na(), "unique (all columns)": lambda d, o: d.unique(),
+    "cbind (no arguments)": lambda d, o: d.cbind(), "rbind (no arguments)": lambda d, o: d.rbind(),
+    "print_ / repr / str": lambda d, o: (repr(d), str(d), d.print_(), d.print_na_counts(), d.print_memory_use()) and None,
     "copy": lambda d, o: d.copy() and None,     # documented shallow copy: shares the columns; only "inputs unchanged" is checked
 }
 
@@ -333,7 +356,7 @@ _GROUPED = ("aggregate", "modify (grouped)")      # group_by marks and returns t
 
 @driver("dataiter/data_frame.py::DataFrame[every public non-in-place method: no mutation, no aliasing]")
 def c06_frames(run):
-    run.bound = (f"{len(_DF_CALLS)} calls x 4 frames (int/float/str; fixed-width string + bool + date; object; no rows): receiver and argument "
+    run.bound = (f"{len(_DF_CALLS)} calls x 5 frames (int/float/str; fixed-width string + bool + date; object; no rows; long strings + float32 + timedelta): receiver and argument "
                  "unchanged (names, order, dtypes, values, grouping), result shares no memory with either")
     frames_ = list(_c06_frames())
     for name, fi in run.inputs((n, i) for n in _DF_CALLS for i in range(len(frames_))):
@@ -351,6 +374,10 @@ def c06_frames(run):
         finally:
             run.check([name, fi], _snap(d) == sd and _snap(o) == so, expected=[sd, so], got=[_snap(d), _snap(o)],
                       clause=f"{name}: receiver and argument unchanged")
+        if name in ("cbind (no arguments)", "rbind (no arguments)", "slice (no arguments)", "deepcopy", "slice_off (columns only)") and name != "slice_off (columns only)":
+            # called with nothing to add / remove, the result is the receiver's table again (same names, order, dtypes, values)
+            run.check([name, fi], isinstance(got, DataFrame) and _snap(got)[1] == sd[1], expected=sd[1], got=_snap(got)[1] if isinstance(got, DataFrame) else repr(got),
+                      clause=f"{name}: the result holds the receiver's columns and values")
         shared = [1 for a in _arrays_of(got) for inp in (d, o) for c in inp.columns if np.shares_memory(a, c)]
         if name == "split" or name.startswith("to_"):
             shared = []       # index vectors / foreign containers: not views of the data columns by construction, checked below by edit
@@ -372,6 +399,8 @@ _V_CALLS = {
     "replace_na": lambda v: v.replace_na(v[0]) if len(v) else v.replace_na(None), "sample": lambda v: v.sample(2), "sort": lambda v: v.sort(),
     "sort (descending)": lambda v: v.sort(dir=-1), "tolist": lambda v: v.tolist(), "to_string": lambda v: v.to_string(), "to_strings": lambda v: v.to_strings(),
     "unique": lambda v: v.unique(), "is_na": lambda v: v.is_na(), "equal": lambda v: v.equal(v.copy()), "same dtype conversion": lambda v: Vector(v, v.dtype),
+    "to_strings (unquoted, truncated)": lambda v: v.to_strings(quote=False, truncate_width=5), "repr / str": lambda v: (repr(v), str(v)) and None,
+    "concat (nothing)": lambda v: v.concat(), "concat (an empty vector)": lambda v: v.concat(v[:0]), "concat (onto an empty vector)": lambda v: v[:0].concat(v),
 }
 
 
@@ -384,11 +413,13 @@ def _c06_vectors():
     yield "date + NaT", lambda: Vector(["2020-01-02", "NaT", "2020-01-01"], "datetime64[D]")
     yield "object + None", lambda: Vector([None, 1, "x"], object)
     yield "empty", lambda: Vector([], float)
+    yield "long strings", lambda: Vector(["y" * 60, "a\nb", ""], str)
+    yield "float32 + NaN", lambda: Vector(np.array([1.5, np.nan, 0.5], np.float32))
 
 
 @driver("dataiter/vector.py::Vector[every public non-in-place method: no mutation, no aliasing]")
 def c06_vectors(run):
-    run.bound = f"{len(_V_CALLS)} calls x 8 vectors (int, float+NaN, string+'', fixed-width string, bool, date+NaT, object+None, empty)"
+    run.bound = f"{len(_V_CALLS)} calls x 10 vectors (int, float+NaN, string+'', fixed-width string, bool, date+NaT, object+None, empty, long strings, float32+NaN)"
     vs = list(_c06_vectors())
     for name, vi in run.inputs((n, i) for n in _V_CALLS for i in range(len(vs))):
         v = vs[vi][1]()
@@ -404,10 +435,14 @@ def c06_vectors(run):
 
 
 # ---- C18: GeoJSON read / write faithful to the feature collection (bounded run-time contracts; see contracts/io.py) ----
-_GEOMS = [{"type": "Point", "coordinates": [1.5, 2]}, None, {"type": "LineString", "coordinates": [[0, 0], [1, 1.25]]}]
-_PROPSETS = [{}, {"a": 1}, {"a": None, "b": "x"}, {"b": "", "c": 2.5}, {"c": True, "a": 2 ** 53 + 1}, {"b": "ä\"\\n", "d": False}]
+_GEOMS = [{"type": "Point", "coordinates": [1.5, 2]}, None, {"type": "LineString", "coordinates": [[0, 0], [1, 1.25]]},
+          {"type": "GeometryCollection", "geometries": [{"type": "Point", "coordinates": [0, 0]}, {"type": "Polygon", "coordinates": [[[0, 0], [1, 0], [1, 1], [0, 0]]]}]},
+          {"type": "MultiPolygon", "coordinates": [[[[0, 0], [2, 0], [2, 2], [0, 0]]]]}]
+_PROPSETS = [{}, {"a": 1}, {"a": None, "b": "x"}, {"b": "", "c": 2.5}, {"c": True, "a": 2 ** 53 + 1}, {"b": "ä\"\\n", "d": False},
+             {"a": 2.75, "c": 3}]          # a: whole number in one feature, a fraction in another (no truncation to the first value's type)
 _METAS = [{}, {"name": "n"}, {"crs": {"type": "name", "properties": {"name": "urn:x"}}, "bbox": [0, 1.5, 2, 3]},
-          {"we\"ird \\ key": [1, None, "ü"], "name": ""}]
+          {"we\"ird \\ key": [1, None, "ü"], "name": ""},
+          {"items": [1, 2], "keys": "k", "update": {"x": None}}]       # members named like dict methods
 
 
 def _feature_collections(nmax):
@@ -426,8 +461,9 @@ def _feature_collections(nmax):
             yield list(props), 0, 0
 
 
-def _features(props, same_geom):
-    return [{"type": "Feature", "properties": dict(_PROPSETS[p]), "geometry": _GEOMS[0 if same_geom else i % len(_GEOMS)]} for i, p in enumerate(props)]
+def _features(props, same_geom, shift=0):
+    """geometries rotate through _GEOMS, starting at `shift` (the index of the extra members: every geometry type gets used by short collections too)"""
+    return [{"type": "Feature", "properties": dict(_PROPSETS[p]), "geometry": _GEOMS[0 if same_geom else (i + shift) % len(_GEOMS)]} for i, p in enumerate(props)]
 
 
 def _json_eq(a, b):
@@ -456,11 +492,11 @@ def _cell_is(v, expected, present):
 def geojson_read_driver(run):
     n = 3 if run.tier == "thorough" else 2
     run.bound = (f"feature collections of <= {n} features over {len(_PROPSETS)} property sets (bool/int/float/str/null, heterogeneous keys, 2**53+1, "
-                 f"escapes) x 3 geometries (incl. null; also collections with EQUAL features) x {len(_METAS)} sets of extra top-level members (nested values, a key needing escapes)")
+                 f"escapes) x 5 geometries (Point, null, LineString, GeometryCollection, MultiPolygon; also collections with EQUAL features) x {len(_METAS)} sets of extra top-level members (nested values, a key needing escapes)")
     d = tempfile.mkdtemp(prefix="vfgj")
     try:
         for props, mi, sg in run.inputs(_feature_collections(n)):
-            feats = _features(props, sg)
+            feats = _features(props, sg, mi)
             doc = dict({"type": "FeatureCollection"}, **_METAS[mi], features=feats)
             p = os.path.join(d, "r.geojson")
             with open(p, "w", encoding="utf-8") as f:
@@ -496,7 +532,7 @@ def geojson_write_driver(run):
     try:
         gen = ((props, mi, sg, ind) for props, mi, sg in _feature_collections(n) for ind in ("default", 0, 4, None))
         for props, mi, sg, ind in run.inputs(gen):
-            feats = _features(props, sg)
+            feats = _features(props, sg, mi)
             doc = dict({"type": "FeatureCollection"}, **_METAS[mi], features=feats)
             p, q = os.path.join(d, "in.geojson"), os.path.join(d, "out.geojson")
             with open(p, "w", encoding="utf-8") as f:
